@@ -18,3 +18,16 @@ CHECKS["C19"] = dict(
  text="All argument vectors of length 0..4 (quick) / 0..6 (thorough) over int, bigint, float, byte, bool, str x probe functions echo (renders kinds+values it received, in order), last (returns its last argument: kind-preserving result push, checked with hook H2), nothing, fail (raise_error!), missing library, missing symbol, and two chained foreign calls. Oracle: exact rendering / value / sentinel line; for faults exit 1 with banner, message carried, sentinel never printed.",
  note="Probe is a Rust dylib built against /repo/bytecode in the same target dir. Values owning GC memory are outside the alphabet; one or two values per kind.",
  design_ref="DESIGN.md section 4, C19")
+
+CHECKS["C04"] = dict(
+ category="exploration",
+ technique="bounded exhaustive enumeration of string literals (all strings <= 3/4 over the format-special alphabet x 6 syntactic positions) + corpus, differential execution of both CLI paths with instruction-stream comparison",
+ text="Every string of length <=3 (quick) / <=4 (thorough) over {quote, backslash, space, tab, LF, CR, n, r, t, e-acute, a} as a literal in print/list/map-key/imported-module/dead-code/function-body position, every example program of the repository and generated programs of the other generators: `run` vs `compile`+`execute` must agree on stdout and success, the instruction streams loaded on both paths (hook H3) must be identical instruction by instruction, and the text printed must be the text the literal denotes.",
+ note="Trusts hook H3 to dump what the interpreter loaded. Strings longer than 4 and characters outside the alphabet (incl. NUL) are not explored; map output is compared order-insensitively; object addresses are masked.",
+ design_ref="DESIGN.md section 4, C04")
+CHECKS["C18"] = dict(
+ category="exploration",
+ technique="bounded exhaustive enumeration of instruction-argument strings + corpus + full opcode-name table, differential execution of the raw-text/transpile/execute pipeline against run",
+ text="Every string of length <=3 (quick) / <=4 (thorough) over the format-special alphabet in 5 positions of a single-module program, every single-module example, generated programs, and each of the 63 opcode names through a one-instruction text file: compile --output-format raw-text -> transpile -> execute must print and succeed exactly like `run`, and the instruction streams loaded (hook H3) must be identical.",
+ note="Single-module programs only (as the property states). Trusts hook H3. Strings longer than 4 / other characters not explored.",
+ design_ref="DESIGN.md section 4, C18")
